@@ -66,12 +66,52 @@ def sized_height_is_a_root(chk):
                               "unclamped returned height makes the excess zero within 1e-3 (for the time-step method the sizing was asked for)")
 
 
+def coherent_after_late_setter(chk):
+    """set_simulation_parameters called again AFTER set_design, find_design directly afterwards (set_design not repeated).  Whichever of the
+    two sets of limits the tool honours, the field search and the final sizing must honour the SAME one: the result must be the design
+    a fresh manager finds for the first set, or the one it finds for the second set — not the field of one with the height of the other."""
+    import copy
+    pairs = [({"max_eft": 39.0}, cfg(months=12, loads={"kind": "cooling", "scale": 26000.0, "seed": 4}, geom_over={"min_height": 40.0, "max_height": 110.0}))]
+    if chk.tier != "quick":
+        pairs.append(({"min_eft": 1.0}, cfg("RECTANGLE", months=12, loads={"kind": "heating", "scale": 24000.0, "seed": 6}, geom_over={"min_height": 40.0, "max_height": 110.0})))
+    for values, second in pairs:
+        first = copy.deepcopy(second)
+        second = copy.deepcopy(second)
+        second["design"].update(values)
+        late = copy.deepcopy(second)
+        late["_set_after_design_without_set_design"] = {"section": "design", "values": {k: first["design"][k] for k in values}}
+        rl, r1, r2 = e2e_runs([late, first, second])
+        chk.cov["evaluations"] += 3
+        if any(r.get("exc") == "HarnessError" for r in (rl, r1, r2)):
+            chk.broken.append({"name": "end-to-end run failed in the harness (late setter)", "detail": str([r.get("msg") for r in (rl, r1, r2)])[:300]})
+            continue
+        def same(a, b):
+            if not a.get("ok") or not b.get("ok"):
+                return a.get("ok") == b.get("ok") and a.get("exc") == b.get("exc")
+            return a["nbh"] == b["nbh"] and abs(a["H"] - b["H"]) <= 1e-6
+        chk.notes.append({"late_setter": {"first": [r1.get("nbh"), r1.get("H")], "second": [r2.get("nbh"), r2.get("H")], "late": [rl.get("nbh"), rl.get("H")]}})
+        if same(r1, r2):
+            chk.notes.append({"late_setter": "the two sets of limits give the same design; nothing to tell apart"})
+            continue
+        if not (same(rl, r1) or same(rl, r2)):
+            chk.violation("late-setter", late, {"returned": [rl.get("nbh"), rl.get("H"), rl.get("exc")], "design_for_the_first_limits": [r1.get("nbh"), r1.get("H")],
+                                                "design_for_the_second_limits": [r2.get("nbh"), r2.get("H")]},
+                          "field selection and final sizing honour the same limits: the result is the design of one of the two sets of limits (first feasible field, height a root for it)")
+
+
+def both_extras(chk):
+    sized_height_is_a_root(chk)
+    coherent_after_late_setter(chk)
+
+
 def run(chk):
-    return run_search_check(chk, "C05", "C05", configs(chk.tier), e2e_oracle, extra=sized_height_is_a_root)
+    return run_search_check(chk, "C05", "C05", configs(chk.tier), e2e_oracle, extra=both_extras)
 
 
 def replay(payload):
     from lib import Check
     import searchcommon as sc
     chk = Check("C05", "quick", payload.get("seed", 0))
+    if payload.get("kind") in ("late-setter", "ghe-size"):
+        return "RERUN"
     return replay_common(chk, payload, "C05", e2e_oracle)
